@@ -46,8 +46,13 @@ def snapshot(t):
     return (t.root_hash, db, rc)
 
 
+class KeyBytes(bytes):
+    """a bytes subclass (like hexbytes.HexBytes): a perfectly good key / root hash"""
+
+
 def restore(snap, logdict=True):
     root, db, rc = snap
+    root = bytes(bytearray(root))  # an equal but never identical object (roots come from headers, pickles, hex strings ...)
     d = LogDict(db) if logdict else dict(db)
     if rc is None:
         return HexaryTrie(d, root)
@@ -511,7 +516,7 @@ class HexSys:
                     if form == "get":
                         got, exp = t.get(p), want
                     elif form == "getitem":
-                        got, exp = t[p], want
+                        got, exp = t[KeyBytes(p)], want
                     elif form == "exists":
                         got, exp = t.exists(p), want != b""
                     else:
